@@ -36,7 +36,18 @@ pub fn base_alphabet() -> Vec<Op> {
         Add(Tgt::Lo, 3),
         Snapshot,
         Insert { mask: 2, rev: false },
+        // used by the explicit extra bases only (`extra_bases`); `bases` enumerates the first NBASE_OPS operations
+        Remove(Tgt::Mid),
+        MutQ(0),
     ]
+}
+
+pub const NBASE_OPS: u8 = 8;
+
+/// Bases beyond the enumerated ones, for `clone_from` from a snapshot the destination has moved away from in a
+/// way that keeps every destination table a row-prefix of the source's (or identical up to values).
+pub fn extra_bases() -> Vec<Vec<u8>> {
+    vec![vec![3, 6, 8], vec![0, 6, 4], vec![0, 6, 9], vec![3, 6, 9], vec![1, 3, 6, 8], vec![3, 0, 6, 9], vec![1, 6, 4]]
 }
 
 /// All histories over the base alphabet up to `depth` that are enabled (deduplicated by canonical state).
@@ -48,7 +59,7 @@ pub fn bases(depth: usize) -> Vec<Vec<u8>> {
     for _ in 0..depth {
         let mut next = Vec::new();
         for h in &frontier {
-            for oi in 0..ops.len() as u8 {
+            for oi in 0..NBASE_OPS {
                 let mut h2 = h.clone();
                 h2.push(oi);
                 arena::begin(0);
@@ -435,6 +446,8 @@ pub struct FaultOut {
     /// clone_from only: for every `Drop` call of the operation, where the destroyed value lived before the operation:
     /// 1 = in a destination table that the source has too, 2 = in a destination table the source lacks, 0 = elsewhere
     pub drop_sites: Vec<u8>,
+    /// class of (destination, source, table being cloned) for every `Clone` call of a clone_from, from the unfaulted run
+    pub clone_sites: Vec<u8>,
     pub enabled: bool,
     pub calls: [u64; NCB],
     pub fired: bool,
@@ -446,7 +459,37 @@ pub struct FaultOut {
 
 /// One execution: build the base, optionally arm a panic at call `k` of kind `cb` (counted from the start
 /// of the operation), run the operation, run the aftermath, drop everything, judge.
-pub const SITE_NAMES: [&str; 3] = ["elsewhere", "shared-table", "destination-only-table"];
+pub const SITE_LABELS: [&str; 6] = ["clone_from fault site: elsewhere", "clone_from fault site: shared-table", "clone_from fault site: destination-only-table", "clone_from fault site: identical-source", "clone_from fault site: destination-is-row-prefix-of-source", "clone_from fault site: different-source"];
+pub const SITE_NAMES: [&str; 6] = ["elsewhere", "shared-table", "destination-only-table", "identical-source", "destination-is-row-prefix-of-source", "different-source"];
+
+/// For a `Clone` fault inside `clone_from`: how the destination relates to the source before the call, seen from the
+/// table `cur` (first identifier byte) whose value is being cloned when the fault strikes.
+/// 3: same tables, same identifiers in the same rows everywhere (nothing is truncated, nothing grows);
+/// 4: every table but `cur` holds the same identifiers in the same rows on both sides, and the destination's `cur` table
+///    holds a row-prefix of the source's with room for the source's rows in every column (values are replaced and
+///    appended in place; nothing is truncated or reallocated, and every identifier the allocator knows keeps its row);
+/// 5: anything else (rows truncated, columns reallocated, tables emptied or created, identifiers moving between rows,
+///    or tables finished before the fault that gained identifiers the allocator does not know yet).
+pub fn clone_site(d: &brood::verif::Dump, s: &brood::verif::Dump, cur: Option<u8>) -> u8 {
+    let rows = |x: &brood::verif::Dump, m: u8| x.archetypes.iter().find(|a| a.id_bytes.first().copied().unwrap_or(0) == m).map(|a| a.entity_ids.clone()).unwrap_or_default();
+    let masks: std::collections::BTreeSet<u8> = d.archetypes.iter().chain(s.archetypes.iter()).map(|a| a.id_bytes.first().copied().unwrap_or(0)).collect();
+    let mut identical = true;
+    for &m in &masks {
+        let (rd, rs) = (rows(d, m), rows(s, m));
+        if rd == rs {
+            continue;
+        }
+        identical = false;
+        if Some(m) != cur || rd.len() > rs.len() || rd[..] != rs[..rd.len()] {
+            return 5;
+        }
+        let Some(a) = d.archetypes.iter().find(|a| a.id_bytes.first().copied().unwrap_or(0) == m) else { return 5 };
+        if !(a.entity_col.1 >= rs.len() && a.columns.iter().all(|c| c.1 >= rs.len())) {
+            return 5;
+        }
+    }
+    if identical { 3 } else { 4 }
+}
 
 pub fn run_fault(ops: &[Op], base: &[u8], fop: FOp, inject: Option<(Cb, u64)>, aftermath: u8) -> FaultOut {
     run_fault_at(ops, base, fop, inject, aftermath, None)
@@ -457,7 +500,7 @@ pub fn run_fault(ops: &[Op], base: &[u8], fop: FOp, inject: Option<(Cb, u64)>, a
 pub fn run_fault_at(ops: &[Op], base: &[u8], fop: FOp, inject: Option<(Cb, u64)>, aftermath: u8, site: Option<u8>) -> FaultOut {
     arena::begin(0);
     comp::ledger_begin();
-    let mut out = FaultOut { drop_sites: Vec::new(), enabled: true, calls: [0; NCB], fired: false, reached_caller: false, fails: vec![], notes: vec![], leaked_blocks: 0 };
+    let mut out = FaultOut { clone_sites: Vec::new(), drop_sites: Vec::new(), enabled: true, calls: [0; NCB], fired: false, reached_caller: false, fails: vec![], notes: vec![], leaked_blocks: 0 };
     let mut fails: Vec<FaultFail> = Vec::new();
     let mut notes: Vec<String> = Vec::new();
     let kind = fop.kind();
@@ -495,6 +538,26 @@ pub fn run_fault_at(ops: &[Op], base: &[u8], fop: FOp, inject: Option<(Cb, u64)>
                 }
             }
         }
+        // clone_from, unfaulted: the dumps before the call and the table every source value lives in
+        let mut before: Option<(brood::verif::Dump, brood::verif::Dump, BTreeMap<u64, u8>)> = None;
+        if matches!(fop, FOp::CloneFrom(_)) && inject.is_none() {
+            let dd = ex.w.verif_dump();
+            let src: Option<&mut W> = match fop {
+                FOp::CloneFrom(0) => ex.aux.as_mut(),
+                _ => prep.src.as_mut(),
+            };
+            if let Some(src) = src {
+                let mut sm: BTreeMap<u64, u8> = BTreeMap::new();
+                for (_, row) in snapshot(src) {
+                    let mask = (0..4).fold(0u8, |m, c| m | ((row[c].is_some() as u8) << c));
+                    for x in row.iter().flatten() {
+                        sm.insert(x.1, mask);
+                    }
+                }
+                before = Some((dd, src.verif_dump(), sm));
+            }
+        }
+        let ctrace0 = comp::with_ledger(|l| l.clone_trace.len()).unwrap_or(0);
         let trace0 = comp::with_ledger(|l| l.drop_trace.len()).unwrap_or(0);
         let c0 = comp::calls();
         if let Some((cb, k)) = inject {
@@ -507,7 +570,13 @@ pub fn run_fault_at(ops: &[Op], base: &[u8], fop: FOp, inject: Option<(Cb, u64)>
             let serials: Vec<u64> = comp::with_ledger(|l| l.drop_trace[trace0.min(l.drop_trace.len())..].to_vec()).unwrap_or_default();
             let sites: Vec<u8> = serials.iter().map(|s| match dst_serial_mask.get(s) { None => 0, Some(m) if src_masks.contains(m) => 1, Some(_) => 2 }).collect();
             out.drop_sites = arena::with_system(|| sites.clone());
+            if let Some((dd, sd, sm)) = &before {
+                let cloned: Vec<u64> = comp::with_ledger(|l| l.clone_trace[ctrace0.min(l.clone_trace.len())..].to_vec()).unwrap_or_default();
+                let cs: Vec<u8> = cloned.iter().map(|x| clone_site(dd, sd, sm.get(x).copied())).collect();
+                out.clone_sites = arena::with_system(|| cs.clone());
+            }
         }
+        drop(before);
         let c1 = comp::calls();
         for i in 0..NCB {
             out.calls[i] = c1[i] - c0[i];
@@ -645,7 +714,8 @@ struct Job {
 
 fn c17_jobs(tier: &str) -> (Vec<Vec<u8>>, Vec<FOp>, Vec<Job>, usize) {
     let depth = if tier == "quick" { 2 } else { 3 };
-    let base_list = bases(depth);
+    let mut base_list = bases(depth);
+    base_list.extend(extra_bases());
     let fops = all_fops();
     let mut jobs = Vec::new();
     for b in 0..base_list.len() {
@@ -708,13 +778,13 @@ fn worker_c17(tier: &str, shard: usize, nshards: usize, resume: Option<(usize, u
                                 continue;
                             }
                         }
+                        let site: Option<u8> = if cb == Cb::Drop && matches!(fop, FOp::CloneFrom(_)) { Some(dry.drop_sites.get(k as usize).copied().unwrap_or(0)) } else if cb == Cb::Clone && matches!(fop, FOp::CloneFrom(_)) { Some(dry.clone_sites.get(k as usize).copied().unwrap_or(5)) } else { None };
                         if !counted {
                             counted = true;
                             // reported immediately so that a later abort of this worker does not lose the count
-                            println!("PT {} {} {}", i, cb as usize, executions);
+                            println!("PT {} {} {} {}", i, cb as usize, executions, site.map_or(9, |x| x));
                             executions = 0;
                         }
-                        let site: Option<u8> = if cb == Cb::Drop && matches!(fop, FOp::CloneFrom(_)) { Some(dry.drop_sites.get(k as usize).copied().unwrap_or(0)) } else { None };
                         util::set_crash_descriptor(&format!("engine=fault-c17 job={} cb={} k={} aftermath={} site={} base={:?} fop={:?}", i, cb as usize, k, aftermath, site.map_or(9, |x| x), base, fop));
                         let o = run_fault_at(&ops, base, fop, Some((cb, k)), aftermath, site);
                         executions += 1;
@@ -783,8 +853,11 @@ fn main_c17(tier: &str, threads: usize, evidence: Option<&str>, replay_dir: &str
                             }
                         } else if let Some(rest) = line.strip_prefix("PT ") {
                             let v: Vec<u64> = rest.split_whitespace().filter_map(|x| x.parse().ok()).collect();
-                            if v.len() == 3 {
+                            if v.len() >= 3 {
                                 let mut tt = totals.lock().unwrap();
+                                if let Some(name) = v.get(3).and_then(|&x| SITE_LABELS.get(x as usize)) {
+                                    *tt.6.entry(name).or_default() += 1;
+                                }
                                 tt.2 += 1;
                                 tt.5[v[1] as usize] += 1;
                                 tt.0 += v[2];
@@ -932,6 +1005,7 @@ fn replay_c17(path: &str) -> i32 {
         arena::init_thread(0);
         let site = match inject {
             Some((Cb::Drop, k)) if matches!(fop, FOp::CloneFrom(_)) => Some(run_fault(&ops, &base, fop, None, 0).drop_sites.get(k as usize).copied().unwrap_or(0)),
+            Some((Cb::Clone, k)) if matches!(fop, FOp::CloneFrom(_)) => Some(run_fault(&ops, &base, fop, None, 0).clone_sites.get(k as usize).copied().unwrap_or(5)),
             _ => None,
         };
         run_fault_at(&ops, &base, fop, inject, aftermath, site)
